@@ -49,6 +49,14 @@ func (sn *stepNode) describe(m wire.Message) string {
 			}
 		}
 		return s + "]"
+	case *wire.MsgInv:
+		s := "inv["
+		for _, i := range msg.InvList {
+			s += fmt.Sprintf("%v:%s ", i.Type, i.Hash.String()[:6])
+		}
+		return s + "]"
+	case *wire.MsgTx:
+		return "tx " + msg.TxHash().String()[:6]
 	case *wire.MsgBlock:
 		if b, ok := sn.peer.tree.ByHash[*msg.Header.BlockHash()]; ok {
 			return "block " + b.Name
